@@ -210,6 +210,10 @@ def _connect_one(ctx: Ctx, c: Collector) -> None:
                 c.check(okv, "delay", CONNECT_ONE, "input_delays[src_sim] of the destination", f"stores {T.show(e.term)[:140]}", ctx.loc(fi, e))
             if tb == "outputs" and e.kind == "store":
                 full = unalias(e.term[1], s, fi)
+                okshape = full[0] == "idx" and full[2] == src_attr and e.term[2] == init and full[1][0] == "call" and full[1][1][0] == "attr" and full[1][1][2] == "setdefault" \
+                    and full[1][2][:1] == (("attr", src, "eid"),)
+                c.check(okshape, "delay", CONNECT_ONE, "initial data is cached as outputs[-shift][src.eid][src_attr] (adding to the entity's entry)",
+                        f"initial data is stored as {T.show(full)[:100]} := {T.show(e.term[2])[:40]}: other initial data of the same entity is overwritten / the layout differs from what get_output_for() returns", ctx.loc(fi, e))
                 okv = T.contains(full, ("unop", "-", call(T.glob("int"), ts))) or T.contains(full, ("op", "-", T.const(0), call(T.glob("int"), ts)))
                 c.check(okv, "delay", CONNECT_ONE, "initial data is cached at time -time_shifted", f"initial data is cached under {T.show(e.term[1])[:120]}: it is not what a consumer shifted by time_shifted reads at its first steps", ctx.loc(fi, e))
 
